@@ -372,13 +372,27 @@ type stageCall struct {
 	path []viaFrame          // helper frames from the entry point inwards; empty if the call sits directly in f
 }
 
-// isStageHelper: an unexported in_toto function with a body (exported functions are stages of the pipeline themselves).
+// pipelineStages: the exported functions of the verification and recording pipelines. They are stages, looked for by
+// name; a stage is never read as a helper frame of another stage. Any other in_toto function with a body that an entry
+// point calls - unexported, or an exported wrapper that bundles some stages - is a helper frame.
+var pipelineStages = map[string]bool{
+	"RunInspections": true, "VerifyArtifacts": true, "ReduceStepsMetadata": true, "VerifyStepCommandAlignment": true,
+	"LoadLayoutCertificates": true, "VerifyLinkSignatureThesholds": true, "LoadLinksForLayout": true,
+	"VerifyLayoutExpiration": true, "VerifyLayoutSignatures": true, "GetSummaryLink": true, "VerifySublayouts": true,
+	"SubstituteParameters": true, "InTotoVerify": true, "InTotoVerifyWithDirectory": true, "RecordArtifact": true,
+	"RecordArtifacts": true, "RunCommand": true, "InTotoRun": true, "InTotoRecordStart": true, "InTotoRecordStop": true,
+	"InTotoMatchProducts": true, "LoadMetadata": true, "ValidateMetablock": true, "UnpackRule": true,
+}
+
+// isStageHelper: an in_toto function with a body that is not itself a pipeline stage and not a method.
 func (p *Prog) isStageHelper(g *ssa.Function) bool {
 	if g == nil || g.Blocks == nil || g.Pkg != p.pkg("in_toto") {
 		return false
 	}
 	if g.Object() != nil && g.Object().Exported() {
-		return false
+		if g.Signature.Recv() != nil || pipelineStages[g.Name()] {
+			return false
+		}
 	}
 	return true
 }
